@@ -4,9 +4,44 @@ import re
 from check import Property
 from props import nodeutil as nu
 from props import pcutil as pu
+from props import c08 as c08mod
+from props import c16 as c16mod
+import hashlib
 
 ALG = "-|3:43c80000"
 KEYS = [1, 2, 3, 4]
+# public keys of the harness key pairs 1 and 2 (constants of harness/driver/conn.rs:key_seed; the `pubkey` cases pin them)
+PUB = {1: "d819a757b619ee36f29d030822a764c2d2c9578510aaff704a7650ebad556f03",
+       2: "90d8cd10fd9934169ef3bc6661e57cb01c23ce99e6d9d84177a1f0b8cf9f52b0"}
+
+
+def key_hash(pub_hex, salt):
+    """the 4-byte salted hash that selects the trusted key a message was signed with (SHA-256 of key || salt)"""
+    return hashlib.sha256(bytes.fromhex(pub_hex) + salt).digest()[:4]
+
+
+def wellformed_init_body(rng, kind):
+    """a well-formed handshake message body (stage, 20-byte node-id hash, 32-byte ECDH key, cipher list, payload as the kind needs)"""
+    rb = lambda n: bytes(rng.getrandbits(8) for _ in range(n))
+    tlv = lambda tag, body: bytes([tag, len(body) >> 8, len(body) & 0xff]) + body
+    parts = [tlv(1, bytes([{"ping": 1, "pong": 2, "peng": 3}[kind]])), tlv(2, rb(20))]
+    if kind in ("ping", "pong"):
+        algos = b"".join(bytes([a]) + bytes.fromhex(sp) for a, sp in rng.sample([(1, "44160000"), (2, "43fa0000"), (3, "43c80000")], rng.randrange(1, 4)))
+        parts += [tlv(3, rb(32)), tlv(4, algos)]
+    if kind in ("pong", "peng"):
+        parts += [tlv(5, rb(rng.choice([24, 60, 200])))]
+    return b"".join(parts) + b"\x00"
+
+
+def partial_collision_salts(rng, want, lo, hi):
+    """salts on which the hashes of the two trusted keys agree in bytes lo..hi but are different as a whole"""
+    out = []
+    while len(out) < want:
+        salt = bytes(rng.getrandbits(8) for _ in range(4))
+        h1, h2 = key_hash(PUB[1], salt), key_hash(PUB[2], salt)
+        if h1[lo:hi] == h2[lo:hi] and h1 != h2:
+            out.append(salt)
+    return out
 
 
 class C01(Property):
@@ -76,6 +111,17 @@ class C01(Property):
         for cut in ([20, 60, 100, 134, 150] if not thorough else range(9, 154, 5)):
             s1, s2 = rng.sample(range(1, 1 << 31), 2)
             out.append("pc %s %s I.1 Q.2 V.2.0.%d Q.2" % (pu.obj(1, 1, s1, 1, [1], ALG, "aa"), pu.obj(2, 2, s2, 1, [1], ALG, "bb"), cut))
+        # which trusted key signed a message is selected by a salted 4-byte hash: genuine messages of the SECOND key in the
+        # receiver's trusted list, with salts on which the two keys' hashes agree in 2 or 3 of the 4 bytes, must still be accepted
+        out += ["pubkey 1", "pubkey 2"]
+        # (a 3-of-4-byte collision costs about 2^24 hash evaluations to find: thorough tier only)
+        for lo, hi, n in ((2, 4, 6), (0, 2, 6), (1, 3, 4)) + (((1, 4, 1),) if thorough else ()):
+            for salt in partial_collision_salts(rng, n, lo, hi):
+                for kind in ("ping", "pong", "peng"):
+                    out.append("im_parse %s 1 1 - - 1 %s" % (wellformed_init_body(rng, kind).hex(), salt.hex()))
+        # node level: bit flips at every byte position of genuine ping / pong / peng presented to a FULL node in the states
+        # unknown sender / pending / established (shared with C08): no peer, no pending entry, no reply, nothing altered
+        out += c08mod.every_position_lines(rng, thorough, ["unknown", "pending_initiator", "pending_responder"] + (["established"] if thorough else []))
         # node level trust relations
         subsets = [list(c) for r in range(0, 5) for c in itertools.combinations(KEYS, r)]
         combos = [(k1, t1, k2, t2) for k1 in KEYS for t1 in subsets for k2 in KEYS for t2 in subsets]
@@ -115,6 +161,8 @@ class C01(Property):
         return d is not None and len(d) > 0 and d[0] == 0xff and 0 < cut < len(d) and all(b == 0 for b in d[cut:])
 
     def model_line(self, line, impl_out):
+        if line.startswith("im_parse ") or line.startswith("pubkey "):
+            return c16mod.PROP.model_line(line, impl_out) if line.startswith("im_parse ") else line
         if line.startswith("node "):
             return nu.model_line(line, impl_out)
         ops, outs = line.split()[1:], impl_out.split()
@@ -131,17 +179,27 @@ class C01(Property):
         return "pc " + " ".join(tr(o, r) for o, r in zip(ops, outs))
 
     def canon_impl(self, line, out):
+        if line.startswith("im_parse "):
+            return c16mod.PROP.canon_impl(line, out)
+        if line.startswith("pubkey "):
+            return out
         if line.startswith("node "):
             return nu.canon_impl(out)
         return out      # the B results (real bytes) stay visible: the oracle decides F11 instances on them
 
     def canon_model(self, line, out):
+        if line.startswith("pubkey "):
+            return "ok " + PUB[int(line.split()[1])]       # no model counterpart: the pinned constant is the expectation
         return out
 
     def nontrivial(self, line, impl_out):
         return True
 
     def tag(self, line, impl_out):
+        if line.startswith("im_parse ") or line.startswith("pubkey "):
+            return "keyhash"
+        if line.startswith("node ") and " F." in line:
+            return "nodeflip"
         if line.startswith("node "):
             d = [nu.parse_dump(x) for x in impl_out.split() if x.startswith("peers=")]
             return "trust:" + ("peers" if d and d[-1]["peers_l"] else "nopeers")
@@ -156,6 +214,13 @@ class C01(Property):
         return (k2 in t1) and (k1 in t2)
 
     def oracle(self, line, impl_out):
+        if line.startswith("pubkey "):
+            return None if impl_out == "ok " + PUB[int(line.split()[1])] else "harness key pair changed: update PUB in py/props/c01.py"
+        if line.startswith("im_parse "):
+            if not impl_out.startswith("ok "):
+                return ("a genuine handshake message signed with a trusted key (second in the receiver's list) is rejected (%s) for key-hash "
+                        "salt %s" % (impl_out[:30], line.split()[7]))
+            return None
         ops = line.split()[1:]
         outs = impl_out.split()
         if len(ops) != len(outs):
@@ -163,6 +228,8 @@ class C01(Property):
         for i, r in enumerate(outs):
             if r.startswith("panic"):
                 return "panic at op %d (%s)" % (i, ops[i])
+        if line.startswith("node ") and " F." in line:
+            return c08mod.PROP.oracle(line, impl_out)
         if line.startswith("node "):
             mutual = self._trust(line)
             dumps = [nu.parse_dump(r) for o, r in zip(ops, outs) if o.startswith("S.")]
